@@ -1056,7 +1056,8 @@ def _strategy_nx(tier):
 
 
 def plan(tier):
-  k = 1 if tier == "quick" else 40
+  # thorough: 40 x the quick volume, with longer lists (C01_THOROUGH_SCALE overrides the factor while developing)
+  k = 1 if tier == "quick" else int(os.environ.get("C01_THOROUGH_SCALE", "40"))
   drivers = [
     Enum("grid", lambda: _all_enum(tier), shards=16),
     Hyp("generated-messages", lambda: _strategy_messages(tier), examples=5000 * k, shards=16),
